@@ -450,6 +450,33 @@ def rule_r2(ctx):
                       symbol=f"{CL}:Cloner", construct=f"{cn}.{attr} not transferred")
 
 
+def rule_graph_attr_returns(ctx):
+    """Every way out of the GRAPH / GRAPHS branches of clone_attr is a new attribute built from cloned graphs: returning
+    the original attribute there (for an empty subgraph, a 'placeholder', …) shares the Graph object with the source."""
+    f = ctx.repo.func(f"{CL}:Cloner.clone_attr")
+    attr_p = f.params[2] if len(f.params) > 2 else "attr"
+    n = 0
+    for iff in (x for x in own_nodes(f.node) if isinstance(x, ast.If)):
+        kinds = {(dotted_of(y) or "").rsplit(".", 1)[-1] for y in ast.walk(iff.test) if isinstance(y, ast.Attribute)} & {"GRAPH", "GRAPHS"}
+        if not kinds:
+            continue
+        cloned = {a.targets[0].id for st in iff.body for a in ast.walk(st) if isinstance(a, ast.Assign) and isinstance(a.targets[0], ast.Name)
+                  and any(isinstance(c, ast.Call) and isinstance(c.func, ast.Attribute) and c.func.attr == "clone_graph" for c in ast.walk(a.value))}
+        for r in (y for st in iff.body for y in ast.walk(st) if isinstance(y, ast.Return)):
+            n += 1
+            v = r.value
+            fresh = isinstance(v, ast.Call) and (dotted_of(v.func) or "").split(".")[-1].startswith(("Attr", "RefAttr")) and any(
+                (isinstance(a, ast.Name) and a.id in cloned) or any(
+                    isinstance(c, ast.Call) and isinstance(c.func, ast.Attribute) and c.func.attr == "clone_graph" for c in ast.walk(a))
+                for a in list(v.args) + [k.value for k in v.keywords])
+            ctx.check("R3", f"clone_attr: {sorted(kinds)[0]} branch returns a new attribute built from cloned graphs ({norm(r)[:50]})", fresh, f, r,
+                      f"`{norm(r)}` leaves the {sorted(kinds)[0]} branch without cloning: the clone's node keeps the original's attribute and with it the "
+                      "same Graph object (its nodes, values, initializers) - editing the clone's branch edits the original",
+                      how="returns inside the GRAPH/GRAPHS branches are Attr(..., <clone_graph result>, ...) constructions",
+                      construct=f"{sorted(kinds)[0]} branch returns {norm(r)[:60]}")
+    ctx.require(n >= 2, "clone_attr: returns of the GRAPH/GRAPHS branches not found")
+
+
 def rule_r3_r4(ctx):
     repo = ctx.repo
     cn = repo.func(f"{CL}:Cloner.clone_node")
@@ -525,6 +552,7 @@ def rule_s3(ctx):
 
 
 def run(ctx):
+    rule_graph_attr_returns(ctx)
     rule_s3(ctx)
     rule_r5(ctx)
     rule_r1(ctx)
